@@ -523,7 +523,7 @@ PROPERTIES["C10"]["runs"] += [_P10]
 PROPERTIES["C10"]["explanation"] += (" Source level (P10): " + PIPE_EXPL + "the programs of the C01 grammar carry one doc annotation - nilable or nonnil on the callee's parameter, on its result (`result 0`), or nilable on the package-level pointer - "
     "read by the real annotation parser; the annotation changes the oracle: a nilable site holds an arbitrary value (fresh symbolic bool), nil flowing into a nonnil site is an event of its own; "
     "'event possible => reported', 'all dereferences nil-checked and no nonnil annotation => clean', and 'diagnostics only on dereference or flow-in lines' are decided per program.")
-PROPERTIES["C10"]["bounds"]["quick"] += "; source level: 1820 programs (parameter, result and package-level annotations - the latter in three declaration forms, nilable and nonnil - x call first/last x one more statement)"
+PROPERTIES["C10"]["bounds"]["quick"] += "; source level: 4368 programs (parameter, result and package-level annotations - the latter in four declaration forms, nilable and nonnil -, names with and without underscores, x call first/last x one more statement)"
 PROPERTIES["C10"]["bounds"]["thorough"] += "; source level: the same with two more statements"
 
 PROPERTIES["C09"]["runs"] += [dict(pkg="accumulation", files=PIPE_FILES, entry="Harness_P09", args=dict(sample_every=13, max_samples=24))]
